@@ -7,6 +7,25 @@ import subprocess
 ROOT = os.path.dirname(os.path.dirname(os.path.abspath(__file__)))
 
 CHECKS = {
+    "C11": ("model_checking",
+            "explicit-state exploration of run/archive/clean/restore histories on real directories with the real commands (real tar), canonical state = rows + Merkle digest",
+            "From every project state reached by run histories (outcomes x git states) every archive variant is taken and restored into an "
+            "emptied project and into a project holding other versions; rows (ids, commit, dirty), tar members and byte-exact trees are compared "
+            "with the reference selection; archive must leave the source untouched.",
+            "Trusted: external tar; reference selection from the docs. Bounds: run histories depth <=2 (3), 3 experiments in 3 nested packages.",
+            "DESIGN.md §4 C11"),
+    "C13": ("exploration",
+            "exhaustive enumeration of cond-out trees from a grammar (all subsets of entry kinds) and of short command histories, against an independent gc expectation",
+            "All 2^11 root-level subsets x nested-package variants and all 2^6 nested subsets, plus all histories of <=3 commands, each followed by "
+            "gc / --dry-run / -v / -n -v; deleted set, untouched remainder (byte-identical) and printed listing compared with the expectation.",
+            "Trusted: reference expectation. Symlinked dirs and look-alike parents with task-like children are outside the alphabet.",
+            "DESIGN.md §4 C13"),
+    "C17": ("exploration",
+            "exhaustive enumeration of sub-commands x project states x invoking directories with a differential oracle against the project root",
+            "Every sub-command/flag combination in every project state from every directory under the root must give the same exit status, "
+            "cond-out digest, rows and (path-normalised) output as from the root; nested-project and outside-project discovery.",
+            "Trusted: path arguments absolute. Bound: 7 directories, 5 states, 23 command lines.",
+            "DESIGN.md §4 C17"),
     "C05": ("model_checking",
             "exhaustive enumeration of all small commit-DAG x version-set x mode x flag states through the real selection code on a real SQLite index with a fake git that is conformance-checked against real git",
             "All commit DAGs <=3 (4) commits x HEAD x <=3 versions x git modes x flags: the real RunExperiment/VersionIndex/Git code selects; "
